@@ -296,6 +296,54 @@ func checkC04(c *Ctx, r *Report) {
 		}
 	}
 
+	// ---------- R8: the skip sentinel is for attempts that never contacted the backend ----------
+	r.Rule("C04-R8", "a per-attempt proxy function returns an error wrapping the loop's skip sentinel (the one the retry loop tests before its connection-failure test, and on which it moves on WITHOUT marking the endpoint offline) only on paths that have not performed the upstream RoundTrip: a failed contact must reach the loop as a connection failure", 2)
+	if skipGlobal != nil {
+		for _, af := range attemptFuncs(c) {
+			var trips []ssa.Instruction
+			eachInstr(af, func(in ssa.Instruction) {
+				if cc := getCall(in); cc != nil {
+					ci := describeCall(cc)
+					if ci.Name == "RoundTrip" || (ci.Pkg == "net/http" && ci.Recv == "Client" && ci.Name == "Do") {
+						trips = append(trips, in)
+					}
+				}
+			})
+			key := fname(af) + ":skip-sentinel-only-before-contact"
+			bad := token.NoPos
+			for _, ret := range returnsOf(af) {
+				var ev ssa.Value
+				for _, x := range retResults(ret) {
+					if x.Type().String() == "error" {
+						ev = x
+					}
+				}
+				if ev == nil || isNilConst(ev) {
+					continue
+				}
+				wraps := false
+				for _, g := range evalErr(ev, 4).WrapsGlobals {
+					if g == skipGlobal {
+						wraps = true
+					}
+				}
+				if !wraps {
+					continue
+				}
+				for _, rt := range trips {
+					if reachAvoiding(rt, ret, nil) {
+						bad = retPos(af, ret)
+					}
+				}
+			}
+			if bad != token.NoPos {
+				r.Bad("C04-R8", key, bad, "after the upstream RoundTrip the attempt can return an error that wraps "+skipGlobal.Name()+": the retry loop takes it for 'circuit open, endpoint not contacted', moves on without marking the endpoint offline, and later requests are sent to the dead endpoint again")
+			} else {
+				r.OK("C04-R8", key, af.Pos(), "the skip sentinel is returned only before the backend is contacted")
+			}
+		}
+	}
+
 	// ---------- R2 ----------
 	r.Rule("C04-R2", "every attempt→attempt cycle of the retry loop passes a call whose result (a list with the tried endpoint removed by name) becomes the loop-carried candidate list; every cycle that is not the circuit-open skip also passes a call that on all paths stores StatusOffline and reaches DiscoveryService.UpdateEndpointStatus", 2)
 	memoRem := map[*ssa.Function]bool{}
